@@ -13,6 +13,9 @@ is copied).  Obligations:
   separation      no mutable container of the copy is a container of the original (parent of a copied
                   sub-tree and `scope` are the only intended shared references)
   edit frame      the edit methods write only the receiver's own containers
+  ownership       after the real Class._find_class has resolved names through qualified and unqualified imports (which memoises the
+                  hit) every class object of the tree is still referenced only from its parent's `classes` -- the hypothesis under
+                  which seeding memo[id(parent)] = parent is sound -- and deepcopy(tree) is still closed and separate
 """
 import z3
 
@@ -221,9 +224,83 @@ def h_edit_frames(eng):
         eng.prove("edit.removed_class_detached", z3.BoolVal(c.fields["parent"] is None))
 
 
+def class_references(root):
+    """every (holder, field path) through which a Class object is referenced from the tree, parent / scope links excluded"""
+    refs, seen = [], set()
+
+    def walk(v, holder, path, via_classes):
+        if isinstance(v, VObj):
+            is_class = any(c.name == "Class" for c in v.cls.mro())
+            if is_class:
+                refs.append((holder, path, v, via_classes))
+            if id(v) in seen:
+                return
+            seen.add(id(v))
+            for k, x in v.fields.items():
+                if k in ("parent", "scope"):
+                    continue
+                walk(x, v, k, False)
+        elif isinstance(v, VDict):
+            for x in v.vals:
+                walk(x, holder, path, path == "classes")
+        elif isinstance(v, (VList, VSet)):
+            for x in v.items:
+                walk(x, holder, path, False)
+        elif isinstance(v, tuple):
+            for x in v:
+                walk(x, holder, path, False)
+    walk(root, None, "<root>", True)
+    return refs
+
+
+def h_lookup_then_copy(eng):
+    """Ownership invariant carried by the look-up code: after the REAL Class._find_class has resolved names (through qualified and
+    unqualified imports, which memoises the hit) every Class object of the tree is still referenced only from its parent's `classes`
+    -- the hypothesis under which `memo[id(parent)] = parent` in Class.__deepcopy__ is sound -- and deepcopy(tree) is still closed."""
+    A = setup(eng)
+    eng.find_function(AST, "Class._find_class")
+    first = ["P", "Q"][eng.choice(2)]           # which package the root lists first (deepcopy reaches it first)
+    lookup_from = ["P", "M"][eng.choice(2)]      # the name is resolved from the importing package or from a model inside it
+    eng.input("first_package", first)
+    eng.input("lookup_from", lookup_from)
+    root = A.new("Tree", name="root")
+    pk = A.new("Class", name="P", type="package")
+    q = A.new("Class", name="Q", type="package")
+    t = A.new("Class", name="T", type="model")
+    u = A.new("Class", name="U", type="model")
+    m = A.new("Class", name="M", type="model")
+    add = eng.find_function(AST, "Class.add_class")
+    for parent, kid in ([(root, pk), (root, q)] if first == "P" else [(root, q), (root, pk)]) + [(q, t), (q, u), (pk, m)]:
+        eng.call(VBound(add, parent), [kid], {})
+    star = A.new("ImportClause", components=VList([A.ref("Q")]), unqualified=True)
+    ops.setitem(eng, pk.fields["imports"], "*", star)
+    ops.setitem(eng, pk.fields["imports"], "Short", A.new("ImportClause", components=VList([A.ref("Q", child=VList([A.ref("U")]))]), short_name="Short"))
+    src = pk if lookup_from == "P" else m
+    f = eng.find_function(AST, "Class._find_class")
+    found = eng.call(VBound(f, src), [A.ref("T")], {})
+    found2 = eng.call(VBound(f, src), [A.ref("T")], {})       # second look-up takes the memo path
+    found3 = eng.call(VBound(f, src), [A.ref("Short")], {})
+    eng.cover("copy.after_lookup")
+    eng.prove("lookup.finds_the_imported_class", z3.BoolVal(found is t and found2 is t and found3 is u))
+    stray = [(h.fields.get("name"), path, c.fields.get("name")) for h, path, c, via in class_references(root) if not via]
+    # (P) the tree's class objects are referenced only from their owner (`classes` of the parent)
+    eng.prove("ownership.lookup_leaves_no_class_reference_outside_classes", z3.BoolVal(not stray), stray=stray[:4])
+    cp = copy_model.deepcopy(eng, root)
+    orig, new = classes_of(root), classes_of(cp)
+    ok = cp.fields["parent"] is None and [c.fields["name"] for c in orig] == [c.fields["name"] for c in new]
+    for c in new[1:]:
+        par = c.fields.get("parent")
+        ok = ok and par in new and c in par.fields["classes"].vals
+    eng.prove("closure.after_lookups_parents_of_copied_classes_are_in_the_copy", z3.BoolVal(bool(ok)))
+    so, sn = containers_of(root), containers_of(cp)
+    shared = [type(v).__name__ for k, v in sn.items() if k in so]
+    eng.prove("separation.after_lookups_no_shared_mutable_object", z3.BoolVal(not shared and not [c for c in new if c in orig]), shared=shared[:5])
+
+
 HARNESSES = [("deepcopy(tree) via Class.__deepcopy__", h_whole_tree), ("Class.copy_including_children", h_subtree),
-             ("Class.__deepcopy__ memo frame", h_memo_frame), ("copy of an edited copy", h_copy_of_copy), ("edit API frames", h_edit_frames)]
-EXPECTED_COVER = {"copy.tree", "copy.subtree", "copy.memo", "copy.copy_of_copy", "edit.done"}
+             ("Class.__deepcopy__ memo frame", h_memo_frame), ("copy of an edited copy", h_copy_of_copy), ("edit API frames", h_edit_frames),
+             ("Class._find_class then deepcopy(tree): ownership invariant", h_lookup_then_copy)]
+EXPECTED_COVER = {"copy.tree", "copy.subtree", "copy.memo", "copy.copy_of_copy", "edit.done", "copy.after_lookup"}
 BOUNDED = True
 LEVEL = "proof"
 TRUSTED = ["pyvc VC generator and its object / dict / list model", "copy.deepcopy's protocol as modelled in contracts/copy_model.py (CPython documentation: memo keyed by id(), __deepcopy__ lookup on the instance first, registration before state copy)"]
@@ -234,7 +311,7 @@ ASSUMPTIONS = [
 EXPLANATION = "The real __deepcopy__ hooks executed against a model of copy.deepcopy's protocol: memo frame, closure, hook invariant, separation, edit frames."
 MANIFEST = {
     "category": "proof",
-    "text": "The real Class.__deepcopy__ / ClassModificationArgument.__deepcopy__ hooks and the edit API are executed against an explicit model of copy.deepcopy's protocol on the real ast classes: an existing memo entry for the parent is never overwritten (so every class of a copied tree has its parent in the copy), a copied sub-tree shares only its parent, no mutable object of a copy belongs to the original, the __deepcopy__ found on any copy copies that copy (copies of edited copies keep the edit), and each edit method changes only its receiver. A bounded replay interleaves deepcopy, edits and flatten on real libraries.",
+    "text": "The real Class.__deepcopy__ / ClassModificationArgument.__deepcopy__ hooks and the edit API are executed against an explicit model of copy.deepcopy's protocol on the real ast classes: an existing memo entry for the parent is never overwritten (so every class of a copied tree has its parent in the copy), a copied sub-tree shares only its parent, no mutable object of a copy belongs to the original, the __deepcopy__ found on any copy copies that copy (copies of edited copies keep the edit), each edit method changes only its receiver, and look-ups through imports (real _find_class, memoised) leave no reference to a class object outside its owner so that copies made after look-ups are still closed. A bounded replay interleaves deepcopy, edits and flatten on real libraries.",
     "note": "copy.deepcopy's protocol is assumed as documented; library shapes and edits enumerated; flattening of the copies is only in the replay.",
     "technique": "contract-based deductive verification: heap-shape obligations by executing the real hooks symbolically against an assumed deepcopy protocol",
 }
